@@ -1027,6 +1027,20 @@ func (sc *Scope) evalCall(x *ECall) Val {
 			excl = append(excl, fmt.Sprintf("(not (= (root r!e) (root (sl_arr %s))))", v.T))
 		}
 		return Val{T: fmt.Sprintf("(forall ((r!e Ref)) (! (=> %s (= (select %s r!e) (select %s r!e))) :pattern ((select %s r!e))))", and(append([]string{fmt.Sprintf("(select %s (root r!e))", c.hget(sc.old, "$alloc"))}, excl...)...), c.hget(sc.cur, comp), c.hget(sc.old, comp), c.hget(sc.cur, comp)), S: SBool, GT: boolT}
+	case "cells_frame":
+		// cells_frame(type(T)): every cell of type T (target of a *T that is not a field or element) allocated in the old state is unchanged
+		need(1)
+		{
+			tv := sc.eval(x.Args[0])
+			if tv.TypeLit == nil {
+				sc.fail("cells_frame(type(T))")
+			}
+			comp := c.cellComp(tv.TypeLit)
+			if !strings.HasPrefix(string(c.compSortOf(comp)), "(Array Ref ") {
+				return Val{T: "true", S: SBool, GT: boolT}
+			}
+			return Val{T: fmt.Sprintf("(forall ((r!c Ref)) (! (=> (select %s (root r!c)) (= (select %s r!c) (select %s r!c))) :pattern ((select %s r!c))))", c.hget(sc.old, "$alloc"), c.hget(sc.cur, comp), c.hget(sc.old, comp), c.hget(sc.cur, comp)), S: SBool, GT: boolT}
+		}
 	case "only_changed":
 		// only_changed(T.f, x): field component T.f is unchanged at every object allocated in
 		// the old state, except possibly x (several exceptions may be given)
